@@ -207,6 +207,55 @@ pub fn run(ctx: &mut Ctx) {
     } else {
         ctx.class("many_calls_one_process");
     }
+    // --- consecutive calls whose stored coordinates agree in X and Y (or in X only) while the points are opposite:
+    // (X, Y, Z) and (X, Y, -Z) both represent valid points, P and -P. One argument is the generator in its stored form
+    // (the argument that the protocols pass), the other varies; every value is compared with the reference.
+    {
+        let nrel = ctx.n(8, 200);
+        let mut pc = ctx.prng("sameXY");
+        let zero = BigUint::from(0u32);
+        for i in 0..nrel {
+            let sub = pc.next();
+            if !ctx.mine(i) {
+                continue;
+            }
+            let mut p = Prng::new(sub, "xy");
+            let a = rand_scalar(&mut p, &pr.n);
+            let l = if i % 2 == 0 { BigUint::one() } else { rand_scalar(&mut p, &pr.p) };
+            let nl = &pr.p - &l;
+            let pa = r9::g1_mul(&a, &r9::g1_gen()).unwrap();
+            let np = r9::g1_neg(&Some(pa.clone())).unwrap();
+            let qa = r9::g2_mul(&a, &r9::g2_gen()).unwrap();
+            let nq = r9::g2_neg(&Some(qa.clone())).unwrap();
+            let e1 = r9::pairing(&pa, &r9::g2_gen().unwrap()).unwrap();
+            let e1i = r9::f12inv(&e1).unwrap();
+            let e2 = r9::pairing(&r9::g1_gen().unwrap(), &qa).unwrap();
+            let e2i = r9::f12inv(&e2).unwrap();
+            let (g1l, g2l) = (hk::generator_p1(), hk::generator_p2());
+            let l2 = (l.clone(), zero.clone());
+            let nl2 = (nl.clone(), zero.clone());
+            let seq: Vec<(&str, gm_sm9::points::Point, gm_sm9::points::TwistPoint, &r9::F12)> = vec![
+                ("genQ:P", r9::lib_g1(&pa, &l), g2l, &e1),
+                ("genQ:-P_same_XY_negated_Z", r9::lib_g1(&np, &nl), g2l, &e1i),
+                ("genQ:P_again", r9::lib_g1(&pa, &l), g2l, &e1),
+                ("genQ:-P_same_X_Z_negated_Y", r9::lib_g1(&np, &l), g2l, &e1i),
+                ("genQ:P_negated_Y_negated_Z", r9::lib_g1(&pa, &nl), g2l, &e1),
+                ("genP:Q", g1l, r9::lib_g2(&qa, &l2), &e2),
+                ("genP:-Q_same_XY_negated_Z", g1l, r9::lib_g2(&nq, &nl2), &e2i),
+                ("genP:Q_again", g1l, r9::lib_g2(&qa, &l2), &e2),
+                ("genP:-Q_same_X_Z_negated_Y", g1l, r9::lib_g2(&nq, &l2), &e2i),
+            ];
+            for (cls, pp, qq, want) in seq {
+                ctx.eval();
+                ctx.class("consecutive_same_stored_XY");
+                ctx.distinct("sameXY", &[cls.as_bytes(), &r9::b32(&a), &r9::b32(&l)]);
+                match guard(|| hk::pairing(&qq, &pp)) {
+                    Outcome::Ret(v) if &r9::ref_f12(&v) == want => {}
+                    o => ctx.violation(&format!("pairing:consecutive_same_stored_XY:{}:{}", cls, if o.is_ret() { "value-differs-from-reference" } else { o.class() }), json!({"a": hex::encode(r9::b32(&a)), "Z": hex::encode(r9::b32(&l))})),
+                }
+            }
+        }
+    }
     // --- identities evaluated inside the library on many more pairs
     let n = ctx.n(300, 20000);
     let mut prng = ctx.prng("ident");
